@@ -1220,14 +1220,21 @@ theorem extracted_after_authenticated_order :
       "pg::monitor", "which_scopes_and_groups", "Msg::PgJoin", "Msg::Ready"] := by decide
 
 /-- the field-by-field hand-overs of `Fields.proxyMsg` (`handle_serialized`) and `Fields.deliver`
-(`handle_node`) are those of the source -/
+(`handle_node`) are those of the source. The extraction is by DATA FLOW, not by spelling: every field is listed
+as `field:<what flows into it>` with local names resolved through `let`s, pattern binders (`Call.args` = the
+field `args` of the matched `SerializedMessage::Call`, `Cast.0` = the payload of the matched `Msg::Cast`) and
+closure parameters, in alphabetical order — so renaming a local or reordering the fields of the literal
+does not disturb it, while handing a different value to a field does. -/
 theorem extracted_payload_field_mapping :
-    Extracted.proxyCastFields = ["to", "what:args", "variant", "metadata"] ∧
-    Extracted.proxyCallFields = ["to", "tag", "what:args",
-      "timeout_ms:reply.get_timeout().map(|t|t.as_millis()asu64)", "variant", "metadata"] ∧
-    Extracted.deliverCastFields = ["variant:cast_args.variant", "args:cast_args.what", "metadata:cast_args.metadata"] ∧
-    Extracted.deliverCallFields = ["args:call_args.what", "reply:(tx,timeout).into()", "variant:call_args.variant",
-      "metadata:call_args.metadata"] := by decide
+    Extracted.proxyCastFields = ["metadata:Cast.metadata", "to:myself.get_id().pid()", "variant:Cast.variant",
+      "what:Cast.args"] ∧
+    Extracted.proxyCallFields = ["metadata:Call.metadata", "tag:state.get_and_increment_mtag()",
+      "timeout_ms:Call.reply.get_timeout().map(|_p|_p.as_millis()asu64)", "to:myself.get_id().pid()",
+      "variant:Call.variant", "what:Call.args"] ∧
+    Extracted.deliverCastFields = ["args:Cast.0.what", "metadata:Cast.0.metadata", "variant:Cast.0.variant"] ∧
+    Extracted.deliverCallFields = ["args:Call.0.what", "metadata:Call.0.metadata",
+      "reply:(ractor::concurrency::oneshot().0,some(Call.0.timeout_ms.map(Duration::from_millis))).into()",
+      "variant:Call.0.variant"] := by decide
 
 #print axioms C20.composed_system_refines_its_components
 #print axioms C20.extracted_after_authenticated_order
